@@ -1585,3 +1585,16 @@ def run_bounded():
     r = solve.check_vc(hyps, goal, 60000, want_model=False)
     print("BOUNDED", oid, r.status, r.backend, round(r.seconds, 2))
     return r.status
+
+
+# Text proposed for tools_manifest.py::CLAIMED["C08"] (that file is shared; not edited by this pack)
+MANIFEST_CLAIM = dict(
+    text="Deductive proof on the real AST that every encryption detector equals a predicate over an abstract container view "
+         "(OLE stream names; FILEPASS on the BIFF record chain with loop invariant and variant; FIB flag 0x0100; ZIP flag bit 0 with "
+         "loop invariant and no read/yield before the scan; 7z AES coder prefix checked before extractall; ODF manifest element; "
+         "EPUB encryption.xml/rights.xml; PDF decrypt('')), in both directions, and that in every extractor all paths to the first "
+         "yield pass the detector and a True result escapes as the file-encrypted error (also through read_file).",
+    note="Assumed: olefile/zipfile/pypdf/ElementTree views, EXC-ANY for other library calls, listed totality assumptions. "
+         "Five recorded findings (F18, F25-F28) with native witnesses; proposed_fixes/C08.diff makes all obligations provable.",
+    technique="contract-based deductive verification: AST->VC generation over the real source (z3), AST dominance analysis, native replay",
+)
